@@ -47,11 +47,39 @@ COMMENT_BODIES = ["", "plain text", "{{ bad", "{{ 'x' }", "{% assign zz = 1 %}",
                   "  \n\t", "{% decrement n %}{% capture zz %}x{% endcapture %}", "}} %} {", "{{ 99999999999999999999 }}", "{% unknown_tag %}", "é√𝄞"]
 
 
+# block kinds: the tags in order, and which of the segments between them are printed (in order, with repetition)
+BLOCKS = {
+    "if": (["if true", "endif"], [0]),
+    "if-else-true": (["if true", "else", "endif"], [0]),
+    "if-else-false": (["if false", "else", "endif"], [1]),
+    "if-elsif": (["if false", "elsif true", "else", "endif"], [1]),
+    "if-no-arm": (["if false", "elsif nil", "endif"], []),
+    "unless": (["unless false", "endunless"], [0]),
+    "unless-else": (["unless true", "else", "endunless"], [1]),
+    "for-twice": (["for i in (1..2)", "endfor"], [0, 0]),
+    "for-else-empty": (["for i in (1..0)", "else", "endfor"], [1]),
+    "for-else-nonempty": (["for i in (3..3)", "else", "endfor"], [0]),
+    "case-first": (["case 1", "when 1", "when 2", "else", "endcase"], [1]),
+    "case-second": (["case 2", "when 1", "when 2", "else", "endcase"], [2]),
+    "case-else": (["case 3", "when 1", "when 2", "else", "endcase"], [3]),
+    "case-none": (["case 3", "when 1", "when 2", "endcase"], []),
+    "case-or": (["case 2", "when 1 or 2", "when 2", "endcase"], [1]),
+    "capture": (["capture cc", "endcapture"], []),
+    "ifchanged-once": (["ifchanged", "endifchanged"], None),       # printed unless it repeats the previous ifchanged output: decided while rendering
+}
+
+
 def gen_items(rnd, depth, n):
     items = []
     for _ in range(n):
-        k = rnd.choice(["out", "out", "assign", "raw", "comment", "if"] if depth > 0 else ["out", "assign", "raw", "comment"])
+        k = rnd.choice(["out", "out", "assign", "raw", "comment", "if", "blk", "blk"] if depth > 0 else ["out", "assign", "raw", "comment"])
         t = [rnd.random() < 0.5 for _ in range(4)]
+        if k == "blk":
+            kind = rnd.choice(sorted(BLOCKS))
+            tags, _ = BLOCKS[kind]
+            items.append(("text", text_segment(rnd)))
+            items.append(("blk", kind, [gen_items(rnd, depth - 1, rnd.randint(0, 2)) for _ in range(len(tags) - 1)], [rnd.random() < 0.4 for _ in range(2 * len(tags))]))
+            continue
         items.append(("text", text_segment(rnd)))
         if k == "out":
             v = rnd.choice(["v", "", "é", " sp ", "}"])
@@ -85,56 +113,102 @@ def source(items, rnd):
         elif k == "comment":
             t = it[2]
             out.append(delim("{%", "%}", "comment", t[0], t[1], rnd) + it[1] + delim("{%", "%}", "endcomment", t[2], t[3], rnd))
+        elif k == "blk":
+            tags, _ = BLOCKS[it[1]]
+            t = it[3]
+            for j, tag in enumerate(tags):
+                out.append(delim("{%", "%}", tag, t[2 * j], t[2 * j + 1], rnd))
+                if j < len(it[2]):
+                    out.append(source(it[2][j], rnd))
+            if it[1] == "capture":
+                out.append("{{ cc }}")
         else:
             t = it[2]
             out.append(delim("{%", "%}", "if true", t[0], t[1], rnd) + source(it[1], rnd) + delim("{%", "%}", "endif", t[2], t[3], rnd))
     return "".join(out)
 
 
-def pieces(items):
-    """flatten to ('text', s) | ('elem', printed, left trim, right trim)"""
-    ps = []
+def tokens(items, toks):
+    """lexical view: ('text', [s]) (shared, mutable) | ('tag', left trim, right trim); returns the items annotated with their text cells"""
+    ann = []
     for it in items:
         k = it[0]
         if k == "text":
-            ps.append(("text", it[1]))
+            if toks and toks[-1][0] == "text":
+                toks[-1][1][0] += it[1]          # adjacent text is one run of text
+                ann.append(("text", None))
+            else:
+                cell = [it[1]]
+                toks.append(("text", cell))
+                ann.append(("text", cell))
         elif k == "out":
-            ps.append(("elem", it[2], it[3], it[4]))
+            toks.append(("tag", it[3], it[4]))
+            ann.append(("print", it[2]))
         elif k == "assign":
-            ps.append(("elem", "", it[1], it[2]))
+            toks.append(("tag", it[1], it[2]))
+            ann.append(("print", ""))
         elif k == "raw":
             t = it[2]
-            ps += [("elem", "", t[0], t[1]), ("text", it[1]), ("elem", "", t[2], t[3])]
+            toks.append(("tag", t[0], t[1]))
+            cell = [it[1]]
+            toks.append(("text", cell))
+            toks.append(("tag", t[2], t[3]))
+            ann.append(("text", cell))
         elif k == "comment":
             t = it[2]
-            ps.append(("elem", "", t[0], t[3]))          # whatever it holds, a comment emits nothing
+            toks.append(("tag", t[0], t[3]))          # whatever it holds, a comment emits nothing
+            ann.append(("print", ""))
         else:
-            t = it[2]
-            ps += [("elem", "", t[0], t[1])] + pieces(it[1]) + [("elem", "", t[2], t[3])]
-    return ps
+            kind, segs, t = ("if", [it[1]], it[2]) if k == "if" else (it[1], it[2], it[3])
+            tags, _ = BLOCKS[kind]
+            sub = []
+            for j in range(len(tags)):
+                toks.append(("tag", t[2 * j], t[2 * j + 1]))
+                if j < len(segs):
+                    sub.append(tokens(segs[j], toks))
+            ann.append(("blk", kind, sub))
+            if kind == "capture":
+                toks.append(("tag", False, False))
+                ann.append(("printcc",))
+    return ann
+
+
+def render_ann(ann, st):
+    out = []
+    for a in ann:
+        if a[0] == "text":
+            out.append(a[1][0] if a[1] is not None else "")
+        elif a[0] == "print":
+            out.append(a[1])
+        elif a[0] == "printcc":
+            out.append(st.get("cc", ""))
+        else:
+            kind, sub = a[1], a[2]
+            sel = BLOCKS[kind][1]
+            if kind == "capture":
+                st["cc"] = render_ann(sub[0], st)
+            elif kind.startswith("ifchanged"):
+                body = render_ann(sub[0], st)
+                if st.get("ifchanged") != body:
+                    out.append(body)
+                st["ifchanged"] = body
+            else:
+                for j in sel:
+                    out.append(render_ann(sub[j], st))
+    return "".join(out)
 
 
 def expected(items):
-    ps = pieces(items)
-    # adjacent text pieces are one run of text
-    merged = []
-    for p in ps:
-        if p[0] == "text" and merged and merged[-1][0] == "text":
-            merged[-1] = ("text", merged[-1][1] + p[1])
-        else:
-            merged.append(p)
-    out = []
-    for i, p in enumerate(merged):
-        if p[0] == "elem":
-            out.append(p[1])
+    toks = []
+    ann = tokens(items, toks)
+    for i, tk in enumerate(toks):          # the trim markers act on the text next to them, wherever that text ends up
+        if tk[0] != "text":
             continue
-        s = p[1]
-        if i + 1 < len(merged) and merged[i + 1][2]:
-            s = s.rstrip(WS)
-        if i > 0 and merged[i - 1][3]:
-            s = s.lstrip(WS)
-        out.append(s)
-    return "".join(out)
+        if i + 1 < len(toks) and toks[i + 1][0] == "tag" and toks[i + 1][1]:
+            tk[1][0] = tk[1][0].rstrip(WS)
+        if i > 0 and toks[i - 1][0] == "tag" and toks[i - 1][2]:
+            tk[1][0] = tk[1][0].lstrip(WS)
+    return render_ann(ann, {})
 
 
 PROBE = "[{% increment n %}{% if zz %}LEAK{% endif %}]"
@@ -172,6 +246,16 @@ def gen(tier, seed):
                             else:
                                 it = ("if", body, t)
                             add([("text", "a" + ru), it, ("text", ru + "b")], "whitespace run x trim markers (blocks)")
+    # every block kind: distinct text in every segment between its tags (also where no branch prints it), under no / all / alternating trim markers
+    for kind in sorted(BLOCKS):
+        tags, _ = BLOCKS[kind]
+        for ru in ("", " ", "\n", " \t\n "):
+            for pat in ("none", "all", "alt", "alt2"):
+                t = [{"none": False, "all": True, "alt": j % 2 == 0, "alt2": j % 2 == 1}[pat] for j in range(2 * len(tags))]
+                segs = [[("text", ru + "s%d" % j + ru)] for j in range(len(tags) - 1)]
+                add([("text", "a" + ru), ("blk", kind, segs, t), ("text", ru + "b")], "every block kind x segment texts x trim markers")
+        segs = [[("text", " "), ("out", "'v'", "v", False, False), ("text", "\n")] for j in range(len(tags) - 1)]
+        add([("text", "a"), ("blk", kind, segs, [False] * (2 * len(tags))), ("text", "b")], "every block kind x segment texts x trim markers")
     for b in RAW_BODIES:
         for t in ([False] * 4, [True] * 4, [False, True, True, False]):
             add([("text", "<"), ("raw", b, t), ("text", ">")], "raw body")
